@@ -216,6 +216,61 @@ func verifAddPayload(bpRec lnwire.BlindingPointRecord, crs lnwire.CustomRecords)
 	return fmt.Sprintf("%x", bp), cr
 }
 
+// checkAckImpliesSigned (durable state of party i, read from a fork): an add
+// that the forwarding package marks as answered (AckFilter) has had its
+// settle/fail covered by a signature that is itself durable, i.e. the HTLC is
+// gone from the newest persisted commitment of the peer. The ack and the
+// commit diff are one transaction in AppendRemoteCommitChain; a crash between
+// two writes that should have been one leaves an acked add whose response
+// was never signed: nothing will ever answer it.
+func (e *verifE1) checkAckImpliesSigned(i int, st *channeldb.OpenChannel, where string) {
+	pkgs, err := st.LoadFwdPkgs()
+	if err != nil {
+		e.viol("reload_error", "LoadFwdPkgs", fmt.Sprintf("%s: %v", e.parties[i].Name, err))
+		return
+	}
+	latest := &st.RemoteCommitment
+	if diff, err := st.RemoteCommitChainTip(); err == nil && diff != nil {
+		latest = &diff.Commitment
+	}
+	for _, pkg := range pkgs {
+		for idx, lu := range pkg.Adds {
+			add, ok := lu.UpdateMsg.(*lnwire.UpdateAddHTLC)
+			if !ok || pkg.AckFilter == nil || !pkg.AckFilter.Contains(uint16(idx)) {
+				continue
+			}
+			e.vc.Count("oracle_ack_implies_signed", 1)
+			for _, h := range latest.Htlcs {
+				if h.Incoming && h.HtlcIndex == add.ID {
+					e.viol("durable_equal", "acked-add-without-signed-response:"+where,
+						fmt.Sprintf("%s (%s): forwarding package h=%d marks add id=%d as answered, but the newest "+
+							"persisted commitment of the peer (h=%d) still carries the HTLC: its settle/fail was never "+
+							"covered by a durable signature", e.parties[i].Name, where, pkg.Height, add.ID, latest.CommitHeight))
+					return
+				}
+			}
+		}
+	}
+}
+
+// onCommit runs after every committed write transaction of party i when
+// midCommitForks is set: the database as a crash at this instant would leave
+// it must reload, and its forwarding packages must be consistent with its
+// commitments.
+func (e *verifE1) onCommit(i int) {
+	if e.ended || e.parties[i] == nil || e.parties[i].ch == nil {
+		return
+	}
+	e.vc.Count("mid_commit_forks", 1)
+	fk := e.fork(i, "reload_error")
+	if fk == nil {
+		return
+	}
+	defer fk.Close()
+	e.checkAckImpliesSigned(i, fk.state, "mid-handler")
+	e.checkDurablePayload(i, "local", &fk.state.LocalCommitment)
+}
+
 // checkDurablePayload: every HTLC of a persisted commitment of party i still
 // carries the onion blob, blinding point and custom records of the
 // update_add_htlc that created it (the ledger remembers them). A restart
@@ -303,6 +358,7 @@ func (e *verifE1) checkFork(i int) {
 			fmt.Sprintf("%s: reloaded RemoteCommitment differs:\nlive   %s\nreload %s", p.Name, a, b))
 		return
 	}
+	e.checkAckImpliesSigned(i, fk.state, "action-boundary")
 	e.checkDurablePayload(i, "local", &fk.state.LocalCommitment)
 	e.checkDurablePayload(i, "remote", &fk.state.RemoteCommitment)
 	if diff, err := fk.state.RemoteCommitChainTip(); err == nil && diff != nil {
@@ -463,5 +519,16 @@ func (e *verifE1) checkForkLogs(i int, L, F *LightningChannel) {
 		F.updateLogs.Remote.htlcCounter > L.updateLogs.Remote.htlcCounter {
 
 		e.vc.Diag("restored_counters_ahead_of_live", e.parties[i].Name)
+	}
+}
+
+// armCommitHooks makes every committed write transaction of either party a
+// crash point (see onCommit).
+func (e *verifE1) armCommitHooks() {
+	for i := range e.parties {
+		i := i
+		if d, ok := e.parties[i].backend.(*verifE1DB); ok {
+			d.hook = func() { e.onCommit(i) }
+		}
 	}
 }
